@@ -806,3 +806,4 @@ C19.assumptions = [
     "or hang inside quick-xml is covered only by the generated document stream",
     "str::parse::<f64> is an oracle (any behaviour is allowed by the theorems; the harness reports the real result per Text event)",
 ]
+C14.rule += ' Every second file round trip writes to a path that already holds a LONGER document (saving must replace it).'
